@@ -11,6 +11,7 @@ import Sqfs.Proofs.TarPaxRT
 import Sqfs.Proofs.TarSparse
 import Sqfs.Proofs.TarSparseChunk
 import Sqfs.Proofs.TarConv
+import Sqfs.Proofs.TarHeaderFull
 namespace Sqfs.C04
 open Sqfs.Tar
 
@@ -62,39 +63,8 @@ byte shares its top bit with the marker and `0xFF` means "negative").
 -/
 theorem number_roundtrip (v w : Nat) (hw : 2 ≤ w ∧ w ≤ 21) (hv : v < U64)
     (hfit : v < 8 ^ w ∨ 9 ≤ w ∨ (w = 8 ∧ v < 127 * 2 ^ 56)) :
-    readNumber (writeNumber v w) = some v := by
-  obtain ⟨n, rfl⟩ : ∃ n, w = n + 2 := ⟨w - 2, by omega⟩
-  unfold writeNumber
-  have hpos1 : 1 ≤ 8 ^ (n + 1) := Nat.one_le_pow _ _ (by omega)
-  have hpos2 : 1 ≤ 8 ^ (n + 2) := Nat.one_le_pow _ _ (by omega)
-  simp only [show n + 2 - 1 = n + 1 by omega]
-  by_cases h1 : v ≤ 8 ^ (n + 1) - 1
-  · rw [if_pos h1]
-    exact readNumber_octDigits n v [32] (Or.inr ⟨32, [], rfl, by decide⟩) (by omega) hv
-  · rw [if_neg h1]
-    by_cases h2 : v ≤ 8 ^ (n + 2) - 1
-    · rw [if_pos h2]
-      have := readNumber_octDigits (n + 1) v [] (Or.inl rfl) (by show v < 8 ^ (n + 2); omega) hv
-      simpa using this
-    · rw [if_neg h2]
-      have hbig : ¬ v < 8 ^ (n + 2) := by omega
-      simp only [U64] at hv
-      rcases hfit with h | h | ⟨h, h56⟩
-      · exact absurd h hbig
-      · have hp : 256 ^ 8 ≤ 256 ^ (n + 1) := Nat.pow_le_pow_right (by omega) (by omega)
-        have hp' : 256 ^ (n + 1) ≤ 256 ^ (n + 2) := Nat.pow_le_pow_right (by omega) (by omega)
-        norm_num at hp
-        have hlt : v < 256 ^ (n + 1) := by omega
-        apply readNumber_writeBinary (n + 1) v
-        · rw [Nat.div_eq_of_lt hlt]; omega
-        · omega
-        · simp only [U64]; omega
-      · have hn : n = 6 := by omega
-        subst hn
-        apply readNumber_writeBinary 7 v
-        · norm_num at h56 ⊢; omega
-        · norm_num; omega
-        · simp only [U64]; omega
+    readNumber (writeNumber v w) = some v :=
+  readNumber_writeNumber v w hw hv hfit
 
 /--
 **Signed round trip** (the mtime field: `write_number_signed`, then `read_number` and `decode_header`'s
@@ -102,25 +72,8 @@ conversion): every `sqfs_s64` value, negative ones included, in every field of a
 -/
 theorem number_roundtrip_signed (m : Int) (w : Nat) (hw : 9 ≤ w ∧ w ≤ 21)
     (hm : -9223372036854775808 ≤ m ∧ m < 9223372036854775808) :
-    (readNumber (writeNumberSigned m w)).map toSigned = some m := by
-  unfold writeNumberSigned
-  by_cases hneg : m < 0
-  · rw [if_pos hneg]
-    obtain ⟨n, rfl⟩ : ∃ n, w = n + 1 := ⟨w - 1, by omega⟩
-    have hv : (m + (U64 : Int)).toNat % U64 = (m + (U64 : Int)).toNat := by
-      apply Nat.mod_eq_of_lt; simp only [U64]; omega
-    rw [hv]
-    have hp : 256 ^ 8 ≤ 256 ^ n := Nat.pow_le_pow_right (by omega) (by omega)
-    have hp' : 256 ^ n ≤ 256 ^ (n + 1) := Nat.pow_le_pow_right (by omega) (by omega)
-    norm_num at hp
-    have hlt : (m + (U64 : Int)).toNat < 256 ^ n := by simp only [U64]; omega
-    rw [readNumber_writeBinary n _ (by rw [Nat.div_eq_of_lt hlt]; omega) (by omega) (by simp only [U64]; omega)]
-    simp only [Option.map_some, toSigned, U64, Option.some.injEq]
-    split <;> omega
-  · rw [if_neg hneg]
-    rw [number_roundtrip m.toNat w (by omega) (by simp only [U64]; omega) (Or.inr (Or.inl hw.1))]
-    simp only [Option.map_some, toSigned, Option.some.injEq]
-    split <;> omega
+    (readNumber (writeNumberSigned m w)).map toSigned = some m :=
+  readNumber_writeNumberSigned m w hw hm
 
 /-! ## checksum (`checksum.c`, `update_checksum`, `is_checksum_valid`) -/
 
@@ -169,34 +122,44 @@ theorem prefix_digit_len_correct (len : Nat) : numDigits (len + prefixDigitLen l
   prefixDigitLen_fix len
 
 /-- hence the length field of every emitted `SCHILY.xattr` record equals the record's actual length,
-    for all keys and all (binary) values -/
+    for all keys and all (binary) values (`k` = the key as emitted, '%' and '=' escaped) -/
 theorem schily_record_length (key value : Bytes) :
-    let len := 13 + key.length + value.length + 3
-    schilyRecord key value = decStr (len + prefixDigitLen len) ++ ([32] ++ schilyPrefix ++ key ++ [61] ++ value ++ [10]) ∧
+    let k := xattrEncodeKey key
+    let len := 13 + k.length + value.length + 3
+    schilyRecord key value = decStr (len + prefixDigitLen len) ++ ([32] ++ schilyPrefix ++ k ++ [61] ++ value ++ [10]) ∧
     (schilyRecord key value).length = len + prefixDigitLen len := by
   have hp : schilyPrefix.length = 13 := by decide
   refine ⟨?_, ?_⟩
-  · unfold schilyRecord
+  · unfold schilyRecord schilyRecordRaw
     simp only [hp, List.append_assoc]
-  · unfold schilyRecord
+  · unfold schilyRecord schilyRecordRaw
     simp only [hp, List.length_append, decStr_length, prefix_digit_len_correct, List.length_cons, List.length_nil]
     omega
 
 /--
-**PAX record round trip.**  For every key without NUL and '=' and every value (arbitrary bytes: NUL, '=', newline
-included), the record parser of `read_pax_header` applied to the record `write_schily_xattr` emits — followed by
+**xattr key escaping** (`xattr_encode_keyword` / `xattr_decode_keyword` of GNU tar, adopted by the repair
+`fixes/C04-xattr-key-escape.patch`): decoding inverts encoding for every key, and an encoded key never contains the
+PAX keyword terminator '=' (nor a NUL when the key has none).
+-/
+theorem xattr_key_escape (key : Bytes) :
+    xattrDecodeKey (xattrEncodeKey key) = key ∧ ((∀ x ∈ key, x ≠ 0) → ∀ x ∈ xattrEncodeKey key, x ≠ 0 ∧ x ≠ 61) :=
+  ⟨xattrDecode_encode key, xattrEncode_clean key⟩
+
+/--
+**PAX record round trip.**  For every NUL-free key ('=' and '%' included) and every value (arbitrary bytes: NUL, '=',
+newline included), the record parser of `read_pax_header` applied to the record `write_schily_xattr` emits — followed by
 anything — consumes exactly the record and delivers exactly that key/value pair (prepended to the list, as the C code does).
 -/
-theorem pax_record_roundtrip (st : PaxState) (key value rest : Bytes) (hk : ∀ x ∈ key, x ≠ 0 ∧ x ≠ 61) :
-    paxLine false st (schilyRecord key value ++ rest) =
+theorem pax_record_roundtrip (st : PaxState) (key value rest : Bytes) (hk : ∀ x ∈ key, x ≠ 0) :
+    paxLine {} st (schilyRecord key value ++ rest) =
       some ({ st with out := { st.out with xattr := (key, value) :: st.out.xattr } }, (schilyRecord key value).length) :=
   paxLine_schily st key value rest hk
 
 /-- … and the whole payload of a `pax/xattrN` member, any number of xattrs, is read back completely: the header gets
     exactly the written pairs (in reverse order — the reader prepends), `set_by_pax` stays untouched. -/
 theorem pax_payload_roundtrip (xs : List (Bytes × Bytes)) (out : Decoded) (mask : Nat)
-    (hk : ∀ kv ∈ xs, ∀ x ∈ kv.1, x ≠ 0 ∧ x ≠ 61) :
-    readPaxHeader false ((xs.map fun kv => schilyRecord kv.1 kv.2).flatten) out mask =
+    (hk : ∀ kv ∈ xs, ∀ x ∈ kv.1, x ≠ 0) :
+    readPaxHeader {} ((xs.map fun kv => schilyRecord kv.1 kv.2).flatten) out mask =
       some ({ out with xattr := xs.reverse ++ out.xattr }, mask) := by
   unfold readPaxHeader
   rw [paxLoop_schily xs _ _ hk]
@@ -216,54 +179,75 @@ theorem pax_payload_roundtrip (xs : List (Bytes × Bytes)) (out : Decoded) (mask
 
 /-! ## header round trip -/
 
-/-
-Full statement (NOT proved; evaluated on the real code on every run instead — `enc` → `dec` in tools/checks/c04.py):
+/--
+**Header round trip** (full strength).  For *every* entry `write_tar_header` accepts — every entry kind (regular file,
+directory, symbolic link, character / block device, FIFO, hard link), names and link targets of any length (below 100 bytes
+in the header field, from 100 bytes on through GNU 'L' / 'K' records), every numeric encoding (octal, unterminated octal,
+base-256, negative mtime), any number of extended attributes with arbitrary binary values and arbitrary keys ('=' and '%'
+included) through the `SCHILY.xattr` PAX record — and whatever follows in the stream, `read_header` consumes exactly the
+bytes the writer emitted and returns exactly the entry (`decodedOf`, `Sqfs/Spec/TarHeader.lean`: name, link target, ids,
+signed time stamp, size, device number, hard-link flag byte for byte; xattrs in reverse order since the reader prepends;
+symbolic links always with mode 0777).
 
-  header_roundtrip : ∀ e tgt xs n rest, supported e → NUL-free names/targets/keys, ids < 0x7F·2^56 →
-      readHeader ((writeTarHeader e tgt xs n).get ++ rest) =
-        .ok { name := e.name, link := tgt, mode := modeOf e, uid := e.uid, gid := e.gid, mtime := e.mtime,
-              recordSize := sizeOf e, actualSize := sizeOf e, devMajor/devMinor, hardLink := e.hardLink,
-              xattr := xs.reverse } rest
-      (for every entry kind, name/link lengths on both sides of 100 — GNU 'L'/'K' records —, every numeric encoding,
-       xattrs through the SCHILY.xattr PAX record)
-
-What is missing: slicing the 17 fields back out of the 512-byte record (`slice (updateChecksum (rawHeader …)) off n`),
-and the loop of `read_header` over up to three extension records.  What is proved (this theorem and the ones above):
-the record has the right size and a checksum the reader accepts, and every *field codec* the decoder applies inverts
-the corresponding field writer: string fields, the three number encodings at both field widths, signed mtime, and the
-self-referential PAX length.
+`Encodable` holds the calling convention (NUL-terminated strings, `ent->size` = length of the link target, integer types)
+and the documented limits (ids below `0x7F·2^56` in an 8-byte base-256 field, device numbers below 2^31, GNU/PAX records
+of at most 65536 bytes, beyond which `read_header` refuses); it excludes no entry kind, length class or encoding.
+The writer's dialect is "ustar " + " \0" (pre-POSIX/GNU): the ustar `prefix` field is never used (`header_prefix_unused`).
 -/
-theorem header_roundtrip_partial (e : WEntry) (name : Bytes) (slink : Option Bytes) (tf : UInt8) :
-    (writeHeaderRec e name slink tf).length = 512 ∧ isChecksumValid (writeHeaderRec e name slink tf) = true ∧
-    (∀ n : Bytes, n.length ≤ 99 → (∀ x ∈ n, x ≠ 0) → strn (field 100 (n.take 99)) = n) ∧           -- name
-    (∀ t : Bytes, t.length ≤ 99 → (∀ x ∈ t, x ≠ 0) → strn (field 100 (t.take t.length)) = t) ∧     -- link target (`ent->size` bytes)
-    (∀ v, v < 127 * 2 ^ 56 → readNumber (writeNumber v 8) = some v) ∧                               -- mode, uid, gid, devmajor, devminor
-    (∀ v, v < U64 → readNumber (writeNumber v 12) = some v) ∧                                       -- size
-    (∀ m : Int, -9223372036854775808 ≤ m → m < 9223372036854775808 →
-        (readNumber (writeNumberSigned m 12)).map toSigned = some m) := by                         -- mtime
-  have hlen : ∀ l : Bytes, l.length = 100 →
-      (rawHeader (field 100 (name.take 99)) (perm e.mode) e.uid e.gid (if fmt e.mode = S_IFREG then e.size else 0) e.mtime tf l
-        (if fmt e.mode = S_IFCHR ∨ fmt e.mode = S_IFBLK then
-            (if e.devMajor ≥ 2147483648 then e.devMajor % 4294967296 + (U64 - 4294967296) else e.devMajor) else 0)
-        (if fmt e.mode = S_IFCHR ∨ fmt e.mode = S_IFBLK then
-            (if e.devMinor ≥ 2147483648 then e.devMinor % 4294967296 + (U64 - 4294967296) else e.devMinor) else 0)).length = 512 :=
-    fun l hl => rawHeader_length _ _ _ _ _ _ _ _ _ _ (field_length _ _) hl
-  have hl : (match slink with | some t => field 100 (t.take e.size) | none => zeros 100).length = 100 := by
-    cases slink <;> simp [field_length, zeros_length]
-  obtain ⟨c1, _, _, _, c5⟩ := checksum_roundtrip _ (hlen _ hl)
-  refine ⟨c5, c1, ?_, ?_, ?_, ?_, ?_⟩
-  · intro n hn hnul
-    rw [List.take_of_length_le (by omega)]
-    exact strn_field 100 n (by omega) hnul
-  · intro t ht hnul
-    rw [List.take_of_length_le (Nat.le_refl _)]
-    exact strn_field 100 t (by omega) hnul
-  · intro v hv
-    exact number_roundtrip v 8 (by omega) (by simp only [U64]; omega) (Or.inr (Or.inr ⟨rfl, hv⟩))
-  · intro v hv
-    exact number_roundtrip v 12 (by omega) hv (Or.inr (Or.inl (by omega)))
-  · intro m h1 h2
-    exact number_roundtrip_signed m 12 (by omega) ⟨h1, h2⟩
+theorem header_roundtrip (e : WEntry) (tgt : Option Bytes) (xs : List (Bytes × Bytes)) (n : Nat) (rest w : Bytes)
+    (hE : Encodable e tgt xs) (hw : writeTarHeader e tgt xs n = some w) :
+    readHeader (w ++ rest) = .ok (decodedOf e tgt xs.reverse) rest := by
+  cases hh : e.hardLink with
+  | true => exact readHeader_written_hard e tgt xs n rest hE hh w hw
+  | false =>
+    cases ht : entryType e.mode with
+    | none =>
+      unfold writeTarHeader writeTarHeaderK at hw
+      simp [hh, ht] at hw
+    | some t => exact readHeader_written e tgt xs n rest t hE hh ht w hw
+
+/--
+**What the writer refuses** (and only that): an entry that is not a hard link and whose type is none of the six that tar
+can express — sockets in particular.  The refusal happens before anything is appended to the stream (repaired order, D27),
+so the archive stays well-formed; `sqfs2tar` skips the entry with a warning.
+-/
+theorem header_refusal (e : WEntry) (tgt : Option Bytes) (xs : List (Bytes × Bytes)) (n : Nat) :
+    (writeTarHeader e tgt xs n = none ↔
+      e.hardLink = false ∧ fmt e.mode ≠ S_IFREG ∧ fmt e.mode ≠ S_IFDIR ∧ fmt e.mode ≠ S_IFLNK ∧ fmt e.mode ≠ S_IFCHR ∧
+        fmt e.mode ≠ S_IFBLK ∧ fmt e.mode ≠ S_IFIFO) ∧
+    (e.hardLink = false → fmt e.mode = S_IFSOCK → writeTarHeader e tgt xs n = none) := by
+  have key : writeTarHeader e tgt xs n = none ↔ e.hardLink = false ∧ entryType e.mode = none := by
+    unfold writeTarHeader writeTarHeaderK
+    cases hh : e.hardLink with
+    | true => simp
+    | false =>
+      cases ht : entryType e.mode with
+      | none => simp
+      | some t => simp
+  have hty : entryType e.mode = none ↔ fmt e.mode ≠ S_IFREG ∧ fmt e.mode ≠ S_IFDIR ∧ fmt e.mode ≠ S_IFLNK ∧
+      fmt e.mode ≠ S_IFCHR ∧ fmt e.mode ≠ S_IFBLK ∧ fmt e.mode ≠ S_IFIFO := by
+    unfold entryType
+    constructor
+    · intro h
+      split_ifs at h with h1 h2 h3 h4 h5 h6
+      exact ⟨h4, h5, h3, h1, h2, h6⟩
+    · rintro ⟨h4, h5, h3, h1, h2, h6⟩
+      simp only [h1, h2, h3, h4, h5, h6, if_false]
+  refine ⟨by rw [key, hty], ?_⟩
+  intro hh hs
+  rw [key, hty, hs]
+  exact ⟨hh, by decide, by decide, by decide, by decide, by decide, by decide⟩
+
+/-- the writer never uses the ustar `prefix` field: it stays zero in every header block, and the block is recognised as
+    pre-POSIX ("ustar " + " \0"), for which `decode_header` does not look at the prefix at all -/
+theorem header_prefix_unused (name : Bytes) (mode uid gid size : Nat) (mtime : Int) (tf : UInt8) (linkname : Bytes) (maj min : Nat)
+    (hn : name.length = 100) (hl : linkname.length = 100) :
+    slice (hdrBlock name mode uid gid size mtime tf linkname maj min) 345 155 = zeros 155 ∧
+    checkVersion (hdrBlock name mode uid gid size mtime tf linkname maj min) = some .prePosix := by
+  refine ⟨?_, hdrBlock_version name mode uid gid size mtime tf linkname maj min hn hl⟩
+  unfold hdrBlock
+  rw [slice_updateChecksum_hi _ _ _ (rawHeader_length name mode uid gid size mtime tf linkname maj min hn hl) (by decide)]
+  exact raw_prefix name mode uid gid size mtime tf linkname maj min hn hl
 
 /-! ## sparse files (`iterator.c`) -/
 
